@@ -38,6 +38,10 @@ More information:
 Traceback (most recent call last):
     ...
 InvalidChecksum: ...
+>>> validate('213800KUD8LAJ0008501')  # check digits are between 02 and 98
+Traceback (most recent call last):
+    ...
+InvalidChecksum: ...
 >>> validate('213800KUD8LAJWSQ9D')
 Traceback (most recent call last):
     ...
@@ -67,6 +71,8 @@ def validate(number):
         raise InvalidLength()
     if not isdigits(number[-2:]):
         raise InvalidFormat()
+    if number[-2:] in ('00', '01', '99'):
+        raise InvalidChecksum()
     mod_97_10.validate(number)
     return number
 
